@@ -1,10 +1,15 @@
 import Tahoe.Base.DrvUtil
 import Tahoe.Mutable.Authentic
+import Tahoe.Mutable.RetrieveSelect
 /-! Driver for C10: `fd <cold|warm> <field>` → `accept` | `reject`: the reader's decision on a single
 share in which exactly the named field was altered (field names as in `Tahoe.Authentic.Field`).
 `rt <seed family|-> ev…` with ev = o:<shnum>:<fam> | d:<shnum>:<fam>:<id> | x:<shnum> → `<a|r per event> | <root>`:
 one Retrieve's share hash tree (seeded with the root of the given family, or unseeded) fed a sequence
-of shares; root = fam:<f> | junk | none. -/
+of shares; root = fam:<f> | junk | none.
+Shares of a servermap: <shnum>:<server>:<seq>:<root>:<pre>:<offs>:<g|b> (sorted by share number).
+`vm <k> share…` → `<best verinfo | ->  | <recoverable verinfos, sorted>` (ServerMap.best_recoverable_version);
+`rl <t|f> <k> share…` → `ok:<shnums used>` | `fail` (the Retrieve loop; t = a bad share drops its server, as the code does);
+`rd <t|f> <k> share… / share…` → `<verinfo>` | `fail` (download_best_version: first survey / complete map). -/
 open Tahoe.Drv Tahoe.Authentic
 
 def parseField : String → Option Field
@@ -27,7 +32,47 @@ def showRoot : Option Toy.TH → String
   | some (.fam f) => s!"fam:{f}"
   | some _ => "junk"
 
+open Tahoe.RetrSel in
+def parseShare (t : String) : Option MShare :=
+  match t.splitOn ":" with
+  | [a, b, c, d, e, f, g] => do
+    let good ← (if g == "g" then some true else if g == "b" then some false else none)
+    pure ⟨← a.toNat?, ← b.toNat?, ← c.toNat?, ← d.toNat?, ← e.toNat?, ← f.toNat?, good⟩
+  | _ => none
+
+def showVer (v : Tahoe.RetrSel.VerInfo) : String := s!"{v.1},{v.2.1},{v.2.2.1},{v.2.2.2}"
+
+def parseVariant (s : String) : Option Bool := if s == "t" then some true else if s == "f" then some false else none
+
+/-- insertion sort of verinfos in tuple order, duplicates removed (output canonicalisation only) -/
+def insertVer (v : Tahoe.RetrSel.VerInfo) : List Tahoe.RetrSel.VerInfo → List Tahoe.RetrSel.VerInfo
+  | [] => [v]
+  | x :: xs => if v == x then x :: xs else if Tahoe.RetrSel.vlt v x then v :: x :: xs else x :: insertVer v xs
+
 def handle : List String → String
+  | "vm" :: k :: shares =>
+    match k.toNat?, shares.mapM parseShare with
+    | some k, some m =>
+      let b := match Tahoe.RetrSel.best k m with | some v => showVer v | none => "-"
+      let recs := (m.filter (fun s => Tahoe.RetrSel.recoverable k m s.verinfo)).foldl (fun acc s => insertVer s.verinfo acc) []
+      s!"{b} | {if recs.isEmpty then "-" else " ".intercalate (recs.map showVer)}"
+    | _, _ => "bad-op"
+  | "rl" :: v :: k :: shares =>
+    match parseVariant v, k.toNat?, shares.mapM parseShare with
+    | some v, some k, some m =>
+      match Tahoe.RetrSel.retrieve v k m with
+      | .ok used => s!"ok:{if used.isEmpty then "-" else showNatList used}"
+      | .fail => "fail"
+    | _, _, _ => "bad-op"
+  | "rd" :: v :: k :: rest =>
+    let first := rest.takeWhile (· != "/")
+    let full := (rest.dropWhile (· != "/")).drop 1
+    match parseVariant v, k.toNat?, first.mapM parseShare, full.mapM parseShare, rest.contains "/" with
+    | some v, some k, some f, some m, true =>
+      match Tahoe.RetrSel.read v k f m with
+      | some ver => showVer ver
+      | none => "fail"
+    | _, _, _, _, _ => "bad-op"
   | "rt" :: seed :: evs =>
     match (if seed == "-" then some none else seed.toNat?.map some), evs.mapM parseEv with
     | some sd, some l =>
